@@ -712,7 +712,7 @@ def near_names(r, doc, p=0.3, suffixes=("L", "R", "L", "R", "_", "2", "^", "0"))
     if a == b:
         return doc
     new = a + choice(r, list(suffixes))
-    if chance(r, 0.25):
+    if chance(r, 0.35):
         # ... or to a word that a program prints for a missing or special value (str(None) and the like)
         new = choice(r, ["None", "None", "null", "nan", "True", "inf"])
     if new.endswith("_") and len(segs) >= 3 and chance(r, 0.7):
